@@ -42,7 +42,7 @@ class Spec:
     def __init__(self, name, params=(), ret=None, mode='pure', attrs=None, calls=None,
                  consts=None, strings=None, state=None, self_name='self', errs=None,
                  fuel=None, binder_prefix='', pre=None, lockstep=None, inplace=None, binops=None,
-                 eattrs=None, methods=None, types=None, skip=None):
+                 eattrs=None, methods=None, types=None, skip=None, conv=None, presets=None, stmt_methods=None):
         self.name = name              # Coq name of the definition
         self.params = list(params)    # [(pyname, type)] explicit parameters (besides self)
         self.ret = ret
@@ -62,7 +62,10 @@ class Spec:
         self.eattrs = eattrs or {}      # dotted attribute whose evaluation is effectful -> call spec
         self.methods = methods or {}    # method name -> (fmt with {o} and {args}, arg kw names, result type or None=same)
         self.types = types or {}
-        self.skip = skip or []          # ast.unparse texts of statements that are pinned elsewhere and skipped
+        self.skip = skip or []
+        self.conv = conv or {}
+        self.stmt_methods = stmt_methods or {}  # dotted callee 'X.m' -> (attr X, fmt with {g} (getter) and {a} (argument))
+        self.presets = presets or {}  # free (closure) names: pyname -> (coq term, type)          # ast.unparse texts of statements that are pinned elsewhere and skipped
 
 
 ERR_KINDS = ['ValueError', 'NotImplementedError', 'IndexError', 'AssertionError', 'TypeError',
@@ -114,6 +117,9 @@ class Tr:
     def coerce(self, txt, t, want):
         if t == want:
             return txt
+        cv = getattr(self.spec, 'conv', None) or {}
+        if (str(t), str(want)) in cv:
+            return cv[(str(t), str(want))].format(v=txt)
         if t == 'Z' and want == 'T':
             return '(nofZ %s)' % txt
         if t == 'B' and want == 'B':
@@ -295,7 +301,7 @@ class Tr:
         if d == 'len' and len(n.args) == 1:
             a, ta = self.ex(n.args[0])
             if isinstance(ta, tuple) and ta[0] == 'list':
-                return ('(Z.of_nat (length %s))' % a, 'Z')
+                return ('(Z.of_nat (List.length %s))' % a, 'Z')
             raise TErr('len of ' + str(ta))
         if d == 'float' and len(n.args) == 1:
             if isinstance(n.args[0], ast.Constant) and n.args[0].value == 'inf':
@@ -343,9 +349,17 @@ class Tr:
                     node = ast.Constant(c['defaults'][names[i]])
                 else:
                     raise TErr('call %s: missing argument %d' % (d, i))
+                if isinstance(want, tuple) and want[0] == 'const':
+                    if not (isinstance(node, ast.Constant) and node.value == want[1]):
+                        raise TErr('call %s: argument %d must be the constant %r' % (d, i, want[1]))
+                    continue
+                if want == 'drop':
+                    continue
                 a, ta = self.ex(node)
                 if want == 'any':
                     args.append(a)
+                elif want == 'drop':
+                    pass
                 elif isinstance(want, tuple) and want[0] == 'opt' and ta == 'none':
                     args.append('None')
                 elif isinstance(want, tuple) and want[0] == 'opt' and ta == want[1]:
@@ -422,6 +436,48 @@ class Tr:
             tg = st.targets[0]
             return self.with_effects(st.value, lambda e: self.assign(tg, *self.ex(e), cont))
         if isinstance(st, ast.Expr) and isinstance(st.value, ast.Call):
+            cd = dotted(st.value.func)
+            if cd in sp.stmt_methods:
+                ad, fmt = sp.stmt_methods[cd]
+                at, getter, setter = sp.attrs[ad]
+                if len(st.value.args) != 1 or st.value.keywords:
+                    raise TErr('statement method call shape ' + cd)
+
+                def smeth(e):
+                    v, t = self.ex(e)
+                    s_ = sp.state[0]
+                    return '(let %s := %s in\n %s)' % (s_, setter.format(s=s_, v=fmt.format(g=getter.format(s=s_), a=v)), cont())
+                return self.with_effects(st.value.args[0], smeth)
+            if cd in sp.calls and sp.calls[cd].get('kind') == 'noop':
+                for a_ in list(st.value.args) + [k_.value for k_ in st.value.keywords]:
+                    if not isinstance(a_, (ast.Constant, ast.JoinedStr)):
+                        raise TErr('no-op call %s with a non-constant argument' % cd)
+                return cont()
+            if cd in sp.calls and sp.calls[cd].get('kind') == 'mutarg':
+                # f(X) mutating the object stored in attribute X
+                if len(st.value.args) != 1 or st.value.keywords:
+                    raise TErr('mutarg call shape')
+                ad = dotted(st.value.args[0])
+                if ad not in sp.attrs or sp.attrs[ad][2] is None:
+                    raise TErr('mutarg on undeclared attribute %s' % ad)
+                at, getter, setter = sp.attrs[ad]
+                fn = sp.calls[cd]['by_type'].get(str(at))
+                if fn is None:
+                    raise TErr('mutarg %s on type %s' % (cd, at))
+                s_ = sp.state[0]
+                return '(let %s := %s in\n %s)' % (s_, setter.format(s=s_, v='(%s %s)' % (fn, getter.format(s=s_))), cont())
+            if isinstance(st.value.func, ast.Attribute) and st.value.func.attr == 'append' and len(st.value.args) == 1 \
+                    and dotted(st.value.func.value) in sp.attrs and sp.attrs[dotted(st.value.func.value)][2]:
+                ad = dotted(st.value.func.value)
+                at, getter, setter = sp.attrs[ad]
+                if not (isinstance(at, tuple) and at[0] == 'list'):
+                    raise TErr('append on non-list attribute')
+
+                def app(e):
+                    v, t = self.ex(e)
+                    s_ = sp.state[0]
+                    return '(let %s := %s in\n %s)' % (s_, setter.format(s=s_, v='(%s ++ [%s])' % (getter.format(s=s_), self.coerce(v, t, at[1]) if at[1] in ('Z', 'T') else v)), cont())
+                return self.with_effects(st.value.args[0], app)
             if self._is_effect(st.value):
                 return self.with_effects(st.value, lambda e: cont())
             # pure call whose value is dropped: only allowed if declared droppable
@@ -501,7 +557,9 @@ class Tr:
                 raise TErr('assignment to undeclared/readonly attribute %s' % d)
             ft, _, setter = sp.attrs[d]
             s = sp.state[0]
-            if isinstance(ft, tuple) and ft[0] == 'opt' and t == ft[1]:
+            if (str(t), str(ft)) in sp.conv:
+                v = self.coerce(v, t, ft)
+            elif isinstance(ft, tuple) and ft[0] == 'opt' and t == ft[1]:
                 v = '(Some %s)' % v
             elif isinstance(ft, tuple) and ft[0] == 'opt' and t == 'none':
                 v = 'None'
@@ -550,10 +608,20 @@ class Tr:
                 return ast.Name(id=nm, ctx=ast.Load())
 
             def visit_Call(s2, node):
+                if isinstance(node.func, ast.Attribute) and node.func.attr == 'pop' and \
+                        dotted(node.func.value) in tr.spec.attrs and tr.spec.attrs[dotted(node.func.value)][2]:
+                    return s2.note(node, {})
                 node = s2.generic_visit(node)
                 if tr._is_effect(node):
                     return s2.note(node, tr.spec.calls[dotted(node.func)])
                 return node
+
+            def visit_Subscript(s2, node):
+                d_ = dotted(node.value)
+                if d_ in tr.spec.attrs and isinstance(tr.spec.attrs[d_][0], tuple) and tr.spec.attrs[d_][0][0] == 'list' \
+                        and isinstance(node.slice, ast.Constant) and node.slice.value == 0:
+                    return s2.note(node, {'idem': True})
+                return s2.generic_visit(node)
 
             def visit_Attribute(s2, node):
                 d = dotted(node)
@@ -577,6 +645,23 @@ class Tr:
     def effect(self, call, k):
         """effectful call: kind 'res' : args -> result ret ;  kind 'prim': state -> args -> result (state*ret)"""
         sp = self.spec
+        if isinstance(call, ast.Subscript):
+            at, getter, _ = sp.attrs[dotted(call.value)]
+            r = self.fresh('r')
+            return '(bind (lget0 %s) (fun %s =>\n %s))' % (getter.format(s=sp.state[0]), r, k(r, at[1]))
+        if isinstance(call, ast.Call) and isinstance(call.func, ast.Attribute) and call.func.attr == 'pop' \
+                and dotted(call.func.value) in sp.attrs and dotted(call.func) not in sp.calls:
+            at, getter, setter = sp.attrs[dotted(call.func.value)]
+            if len(call.args) == 1 and isinstance(call.args[0], ast.Constant) and call.args[0].value == 0:
+                fn = 'lpop0'
+            elif not call.args:
+                fn = 'lpop'
+            else:
+                raise TErr('pop with argument ' + ast.unparse(call))
+            r, l = self.fresh('r'), self.fresh('l')
+            s_ = sp.state[0]
+            return "(bind (%s %s) (fun '(%s, %s) =>\n (let %s := %s in\n %s)))" % (
+                fn, getter.format(s=s_), l, r, s_, setter.format(s=s_, v=l), k(r, at[1]))
         if isinstance(call, ast.Attribute):
             c = sp.eattrs[dotted(call)]
             d = dotted(call)
@@ -597,11 +682,15 @@ class Tr:
                 node = ast.Constant(c['defaults'][names[i]])
             else:
                 raise TErr('call %s: missing argument %d' % (d, i))
+            if isinstance(want, tuple) and want[0] == 'const':
+                if not (isinstance(node, ast.Constant) and node.value == want[1]):
+                    raise TErr('call %s: argument %d must be the constant %r' % (d, i, want[1]))
+                continue
+            if want == 'drop':
+                continue
             a, ta = self.ex(node)
             if want == 'any':
                 args.append(a)
-            elif want == 'drop':
-                pass
             elif isinstance(want, tuple) and want[0] == 'opt' and ta == 'none':
                 args.append('None')
             elif isinstance(want, tuple) and want[0] == 'opt' and ta == want[1]:
@@ -615,6 +704,13 @@ class Tr:
             raise TErr('call %s: unexpected keyword(s) %s' % (d, sorted(kw)))
         if sp.mode == 'pure':
             raise TErr('effectful call in pure function')
+        if 'by_type' in c and c['kind'] == 'res':
+            a0, t0 = self.ex(given[0])
+            fnn = c['by_type'].get(str(t0))
+            if fnn is None:
+                raise TErr('call %s on type %s' % (d, t0))
+            c = dict(c, fn=fnn)
+            args = [a0]
         r = self.fresh('r')
         if c['kind'] == 'res':
             body = k(r, c['ret'])
@@ -729,6 +825,7 @@ class Tr:
             if not sp.consts.get('**', False):
                 raise TErr('varargs')
         binders = []
+        self.vars.update(sp.presets)
         for nm, t in sp.params:
             if nm not in pynames:
                 raise TErr('declared parameter %s missing from python signature %s' % (nm, pynames))
